@@ -7,7 +7,7 @@
    eval/veq      = Spec/PyEval.v  (CPython on the emitted subset; NaN-tolerant ==)
    wf            = invariants of real object graphs (fields match the class, dict keys
                    distinct hashable scalars, Decimal/float/date payloads well-formed)
-   guard         = g_array && g_imports && g_init && g_std, one clause per
+   guard         = g_imports && g_init && g_std, one clause per
                    refutation below *)
 From Coq Require Import NArith ZArith List Bool String.
 From XV Require Import Base.Str Spec.PyEval Model.Pycode Proofs.Pycode Proofs.PycodeRefuted.
@@ -16,15 +16,10 @@ Import ListNotations.
 (* the full statement is false of the faithful model ... *)
 Theorem C18_evals_back_unguarded_refuted :
   exists W o, wf W o = true /\ roundtrip W o = false.
-Proof. exists W_wit, wit_tuple. split; apply array_refuted. Qed.
+Proof. exists W_wit, wit_collision. split; apply import_collision_refuted. Qed.
 Print Assumptions C18_evals_back_unguarded_refuted.
 
 (* ... for exactly these reasons (each witness violates one clause of the guard only) *)
-Theorem C18_array_refuted :
-  exists W o, wf W o = true /\ only_array W o = true /\ roundtrip W o = false.
-Proof. exists W_wit, wit_tuple. exact array_refuted. Qed.
-Print Assumptions C18_array_refuted.
-
 Theorem C18_import_collision_refuted :
   exists W o, wf W o = true /\ only_imports W o = true /\ roundtrip W o = false.
 Proof. exists W_wit, wit_collision. exact import_collision_refuted. Qed.
